@@ -37,17 +37,19 @@ func init() {
 }
 
 // embedded (anonymous) structs, two levels, the outer one not the first field: the typed write
-// path computes field offsets through the embedding chain
+// path computes field offsets through the embedding chain. Scalars only inside the embedding: a
+// wrong offset then shows as a wrong value (an input to report) instead of a fatal fault of the
+// harness process on a misread pointer.
 type H004Inner struct {
 	A int32   `parquet:"a"`
-	B *string `parquet:"b"`
+	B float64 `parquet:"b"`
 	C int64   `parquet:"c,optional"`
 }
 
 type H004Mid struct {
 	X int64 `parquet:"x"`
 	H004Inner
-	Y string `parquet:"y,optional"`
+	Y int32 `parquet:"y,optional"`
 }
 
 type H004 struct {
